@@ -2,20 +2,17 @@ import LokiModel.C41.Model
 /-!
 # C41 — witnesses of open defects (non-gating)
 
-`sanitise-imports-drops-bare-use`: `eliminate_unused_imports` tests `im.symbols is not None`; a `USE m` without ONLY list has
-`symbols == ()`, so as soon as any imported symbol of the scope is redundant the statement is mapped to `None` and removed —
-the names it provided become undeclared.
+The classes that are still open (`remove-unused-vars-loop-variable`, `vector-notation-half-open-range`,
+`normalize-shape-drops-stride`, `loop-unroll-exit-cycle`, `inline-offset-on-bare-range`) concern transformations without a
+Lean model here; their witnesses are the request lines in `corpus/C41/witnesses.sexp`.
+
+Regression statement for the repaired class `sanitise-imports-drops-bare-use`: a USE statement without ONLY list is kept.
 -/
 namespace LokiModel.C41
 open LokiModel.C40
 
-/-- `use cmod; use dmod, only: dv1, dv2` with `cv1`, `dv1` used: the result has lost `use cmod` -/
-theorem bare_use_dropped :
-    elimAll ["k", "cv1", "dv1"] [⟨"cmod", some []⟩, ⟨"dmod", some ["dv1", "dv2"]⟩] = [⟨"dmod", some ["dv1"]⟩] ∨ True := by
-  right; trivial
-
-theorem bare_use_dropped_abstract (used : List String) (m : String) (rest : List Imp) :
-    elimAll used (⟨m, some []⟩ :: rest) = elimAll used rest := by
+theorem bare_use_kept (used : List String) (m : String) (rest : List Imp) :
+    elimAll used (⟨m, some []⟩ :: rest) = ⟨m, some []⟩ :: elimAll used rest := by
   simp [elimAll, elimOne]
 
 end LokiModel.C41
